@@ -100,12 +100,21 @@ def state_val(s):
     if isinstance(s, dict) and "dict" in s:
         return T("dict", *[[T(k), tval(v)] for k, v in s["dict"]])
     if isinstance(s, dict) and "obj" in s:
-        return T("o", _num(float(s["obj"]) if s.get("float") else int(s["obj"])))
+        return oval(float(s["obj"]) if s.get("float") else int(s["obj"]))
     if isinstance(s, dict):          # a real dict state (insertion order)
         return T("dict", *[[T(k), tval(v)] for k, v in s.items()])
     if isinstance(s, (int, float)):
-        return T("o", _num(s))
+        return oval(s)
     raise TypeError(type(s))
+
+
+def oval(x):
+    """a Python number state: ints and floats stay distinguishable"""
+    if isinstance(x, bool):
+        return T("o", T("b", int(x)))
+    if isinstance(x, int):
+        return T("o", x)
+    return T("o", T("f", _num(x)))
 
 
 def mk_state(s):
@@ -133,10 +142,8 @@ def gathered_val(x):
         return [tval(y) for y in x]
     if isinstance(x, dict):
         return T("dict", *[[T(k), tval(v)] for k, v in x.items()])
-    if isinstance(x, bool):
-        return T("o", int(x))
-    if isinstance(x, (int, float)):
-        return T("o", _num(x))
+    if isinstance(x, (bool, int, float)):
+        return oval(x)
     raise TypeError(type(x))
 
 
@@ -255,19 +262,16 @@ def run_sim(scn, member_fn=exec_member, delays=None):
 # ------------------------------------------------------------------------------ generators
 def gen_group(rng, quick=True):
     W = rng.choice([1, 2, 2, 3, 3, 3, 4, 4, 5, 6, 7, 8])
-    mode = rng.choice(["world", "world", "sub", "sub-no0", "perm"])
+    mode = rng.choice(["world", "world", "sub", "sub-no0", "sub"])
+    lo = 1 if rng.random() < 0.15 else 2      # groups of one: world1_identity path
     if mode == "world" or W == 1:
         g = list(range(W))
     elif mode == "sub":
-        k = rng.randint(1, W)
-        g = sorted(rng.sample(range(W), k))
-    elif mode == "sub-no0":
-        k = rng.randint(1, W - 1)
-        g = sorted(rng.sample(range(1, W), k))
+        k = rng.randint(min(lo, W), W)
+        g = sorted(rng.sample(range(W), k))   # torch.distributed.new_group sorts the ranks
     else:
-        k = rng.randint(1, W)
-        g = rng.sample(range(W), k)       # torch.distributed.new_group accepts any order
-        g = sorted(g)                     # (torch sorts the ranks of a new group)
+        k = rng.randint(min(lo, W - 1), W - 1)
+        g = sorted(rng.sample(range(1, W), k))
     return W, g
 
 
@@ -422,6 +426,7 @@ def classes():
         "MeanSquaredError": (lambda: M.MeanSquaredError(), lambda rng, v: xy(rng)),
         "MeanSquaredErrorRaw": (lambda: M.MeanSquaredError(multioutput="raw_values"), lambda rng, v: xy(rng, cols=2)),
         "R2ScoreRaw": (lambda: M.R2Score(multioutput="raw_values"), lambda rng, v: xy(rng, k=rng.randint(2, 3), cols=2)),
+        "Covariance": (lambda: M.Covariance(), lambda rng, v: [gen_tensor(rng, "float32", 2, [rng.randint(1, 3), 2])]),
         "DummySumMetric": (lambda: DummySumMetric(), lambda rng, v: [gen_tensor(rng, "float32", 0)]),
         "DummySumListStateMetric": (lambda: DummySumListStateMetric(), lambda rng, v: [gen_tensor(rng, "float32", rng.choice([1, 2]) if v is None else v)]),
         "DictSumMetric": (H["DictSumMetric"], lambda rng, v: [rng.choice(["a", "b", "c"]) if v is None else v, gen_tensor(rng, "float32", 0)]),
@@ -430,7 +435,7 @@ def classes():
     return _CLS
 
 
-NDIM_BY_FIRST_UPDATE = {"MeanSquaredErrorRaw", "R2ScoreRaw"}
+NDIM_BY_FIRST_UPDATE = {"MeanSquaredErrorRaw", "R2ScoreRaw", "Covariance"}
 
 
 def build_metric(mspec):
@@ -471,10 +476,8 @@ def result_val(x):
         return T("dict", *[[T(str(k)), result_val(v)] for k, v in sorted(x.items(), key=lambda kv: str(kv[0]))])
     if isinstance(x, (list, tuple)):
         return [result_val(y) for y in x]
-    if isinstance(x, bool):
-        return T("o", int(x))
-    if isinstance(x, (int, float)):
-        return T("o", _num(x))
+    if isinstance(x, (bool, int, float)):
+        return oval(x)
     if x is None:
         return NONE
     return T("repr:" + type(x).__name__)
@@ -530,7 +533,7 @@ def pseudo_from_val(pv, local_sd):
             attrs[name] = {k.tag: tensor_from_val(t) for k, t in v.args}
         elif isinstance(v, T) and v.tag == "o":
             x = v.args[0]
-            attrs[name] = float(x) if isinstance(local_sd.get(name), float) else int(x)
+            attrs[name] = _tofloat(x.args[0]) if isinstance(x, T) and x.tag == "f" else int(x)
         else:
             raise ValueError(repr(v))
     return type("", (), attrs)
